@@ -2144,6 +2144,229 @@ fn gen_reuse_sequence(rng: &mut Rng) -> Vec<Case> {
     seq
 }
 
+/// an in-place edit of ONE range value between two deserializations
+#[derive(Clone, Debug)]
+enum Mut {
+    /// `range.set_value((abs row, abs col), v)` (inside the rectangle)
+    SetValue(usize, usize, Data),
+    /// `range[(r, c)] = v` (`IndexMut<(usize, usize)>`)
+    Index2(usize, usize, Data),
+    /// `range[r][c] = v` (`IndexMut<usize>`: the mutable row slice)
+    RowSlice(usize, usize, Data),
+    /// `range[r].swap(a, b)`
+    RowSwap(usize, usize, usize),
+    /// `range = range.clone()`
+    CloneIt,
+}
+
+impl Mut {
+    fn wire(&self) -> String {
+        match self {
+            Mut::SetValue(r, c, v) => format!("sv,{r},{c},{}", cell_wire(v)),
+            Mut::Index2(r, c, v) => format!("ix,{r},{c},{}", cell_wire(v)),
+            Mut::RowSlice(r, c, v) => format!("row,{r},{c},{}", cell_wire(v)),
+            Mut::RowSwap(r, a, b) => format!("swap,{r},{a},{b}"),
+            Mut::CloneIt => "clone".to_string(),
+        }
+    }
+    fn parse(w: &str) -> Mut {
+        let p: Vec<&str> = w.split(',').collect();
+        let n = |i: usize| p[i].parse::<usize>().unwrap();
+        match p[0] {
+            "sv" => Mut::SetValue(n(1), n(2), cell_parse(p[3])),
+            "ix" => Mut::Index2(n(1), n(2), cell_parse(p[3])),
+            "row" => Mut::RowSlice(n(1), n(2), cell_parse(p[3])),
+            "swap" => Mut::RowSwap(n(1), n(2), n(3)),
+            "clone" => Mut::CloneIt,
+            x => panic!("bad mutation {x}"),
+        }
+    }
+    /// the same edit on the description (relative coordinates)
+    fn apply_desc(&self, c: &mut Case) {
+        let w = c.w();
+        match self {
+            Mut::SetValue(r, col, v) | Mut::Index2(r, col, v) | Mut::RowSlice(r, col, v) => c.cells[r * w + col] = v.clone(),
+            Mut::RowSwap(r, a, b) => c.cells.swap(r * w + a, r * w + b),
+            Mut::CloneIt => {}
+        }
+    }
+    fn apply_impl(&self, range: &mut Range<Data>) {
+        let (sr, sc) = range.start().unwrap();
+        match self {
+            Mut::SetValue(r, c, v) => range.set_value((sr + *r as u32, sc + *c as u32), v.clone()),
+            Mut::Index2(r, c, v) => range[(*r, *c)] = v.clone(),
+            Mut::RowSlice(r, c, v) => range[*r][*c] = v.clone(),
+            Mut::RowSwap(r, a, b) => range[*r].swap(*a, *b),
+            Mut::CloneIt => *range = range.clone(),
+        }
+    }
+}
+
+fn mutate_wire(case: &Case, muts: &[Mut]) -> String {
+    format!("mutate|{}|{}", case.wire(), muts.iter().map(|m| m.wire()).collect::<Vec<_>>().join("|"))
+}
+
+fn gen_mutate_history(rng: &mut Rng) -> (Case, Vec<Mut>) {
+    let mut case = loop {
+        let c = gen_case(rng);
+        if c.dims.is_some() && c.h() >= 2 && !matches!(c.cfg, Cfg::Wdh(_)) {
+            break c;
+        }
+    };
+    let (h, w) = (case.h(), case.w());
+    // a text header row, a header-reading configuration most of the time
+    for j in 0..w {
+        if !matches!(case.cells[j], Data::String(_)) || rng.chance(1, 2) {
+            let nm = *rng.pick(&["a", "b", "id", "name", "flag", "x y"]);
+            case.cells[j] = Data::String(pad(rng, nm));
+        }
+    }
+    case.calls = vec![];
+    if case.cfg == Cfg::None && rng.chance(3, 4) {
+        case.cfg = Cfg::All;
+    }
+    if let Cfg::Custom(_) = case.cfg {
+        let hdrs: Vec<String> = case.cells[..w].iter().map(o_text).collect();
+        let k = rng.range(1, 3) as usize;
+        case.cfg = Cfg::Custom(
+            (0..k)
+                .map(|_| {
+                    let b = rng.pick(&hdrs).trim().to_string();
+                    pad(rng, &b)
+                })
+                .collect(),
+        );
+    }
+    case.map = rng.chance(3, 4);
+    case.ops = vec![Op::Next; h];
+    let mut muts = vec![];
+    for _ in 0..rng.range(1, 4) {
+        let r = if rng.chance(3, 4) { 0 } else { rng.below(h as u64) as usize };
+        let c = rng.below(w as u64) as usize;
+        let v = if r == 0 && rng.chance(5, 6) {
+            let nm = *rng.pick(&["a", "b", "id", "name", "zz", "flag", ""]);
+            Data::String(pad(rng, nm))
+        } else {
+            gen_cell(rng)
+        };
+        muts.push(match rng.below(9) {
+            0 | 1 => Mut::SetValue(r, c, v),
+            2 | 3 => Mut::Index2(r, c, v),
+            4 | 5 => Mut::RowSlice(r, c, v),
+            6 | 7 => Mut::RowSwap(r, c, rng.below(w as u64) as usize),
+            _ => Mut::CloneIt,
+        });
+    }
+    (case, muts)
+}
+
+/// family `mutate`: ONE range value is deserialized, edited in place through one of the mutation APIs, and
+/// deserialized again. Deserialization is a function of the range's current cells: every stage is compared with
+/// the model and the oracle evaluated on the cells as they are then (neither has any state to go stale).
+fn mutate_family(case0: &Case, muts: &[Mut], variant: u64, drv: &mut Driver, rep: &mut Report) {
+    let text = mutate_wire(case0, muts);
+    rep.case(&text, true);
+    rep.count("mutate.histories");
+    let run = |case0: &Case, muts: &[Mut]| -> Result<Vec<(Case, String)>, String> {
+        guarded(|| {
+            let mut case = case0.clone();
+            let mut range = case.range();
+            let mut out = vec![];
+            for k in 0..=muts.len() {
+                if k > 0 {
+                    muts[k - 1].apply_impl(&mut range);
+                    muts[k - 1].apply_desc(&mut case);
+                }
+                setup_case(&case, variant);
+                let obs = match &case.cfg {
+                    Cfg::Custom(names) => drive(guarded(|| RangeDeserializerBuilder::with_headers(names).from_range::<Data, RecRow>(&range)), &case.ops),
+                    Cfg::None => drive(guarded(|| RangeDeserializerBuilder::new().has_headers(false).from_range::<Data, RecRow>(&range)), &case.ops),
+                    _ => drive(guarded(|| range.deserialize::<RecRow>()), &case.ops),
+                };
+                out.push((case.clone(), obs));
+            }
+            out
+        })
+    };
+    let stages = match run(case0, muts) {
+        Ok(s) => s,
+        Err(m) => {
+            rep.fail("impl_vs_spec", "mutate:panic", &text, &m, "", "no panic");
+            return;
+        }
+    };
+    for (k, (case, obs)) in stages.iter().enumerate() {
+        rep.count("mutate.deserializations");
+        for f in compare(case, obs.clone(), drv) {
+            // shortest history: drop earlier edits while the same failure persists at the last stage
+            let mut keep: Vec<Mut> = muts[..k].to_vec();
+            let mut i = 0;
+            while i < keep.len() {
+                let mut cand = keep.clone();
+                cand.remove(i);
+                let still = run(case0, &cand).ok().and_then(|st| st.last().cloned()).map_or(false, |(c, o)| {
+                    compare(&c, o, drv).iter().any(|g| g.kind == f.kind && g.sig == f.sig)
+                });
+                if still {
+                    keep = cand;
+                } else {
+                    i += 1;
+                }
+            }
+            let sig = if k == 0 { f.sig.clone() } else { format!("mutate:{}", f.sig) };
+            rep.fail(f.kind, &sig, &mutate_wire(case0, &keep), &f.imp, &f.model, &f.expect);
+        }
+    }
+}
+
+/// family `huge`: ranges wider than 65536 columns (2 rows; a handful of named header cells and values at
+/// columns 2, 3, w-1 and — where they exist — 65536 and 65539, an error cell at 65539 / w-2). Rebuilt from `(w, k)`.
+/// Compared impl vs oracle only: the Lean model has no width limit but its list-based rows make 70 000-column
+/// rows too slow to run.
+fn huge_case(w: usize, k: usize) -> Case {
+    let mut cells = vec![Data::Empty; 2 * w];
+    let mut names: Vec<(usize, &str)> = vec![(2, "a"), (3, "k"), (w - 1, "last"), (w - 2, "err")];
+    if w > 65539 {
+        names.push((65536, "z"));
+        names.push((65539, "q"));
+        names.push((65536 + 2, "a2"));
+    }
+    for (c, n) in &names {
+        cells[*c] = Data::String(n.to_string());
+        cells[w + *c] = Data::Int(*c as i64);
+    }
+    cells[w] = Data::Int(0);
+    cells[w + 2] = Data::String("two".into());
+    cells[w + w - 2] = Data::Error(CellErrorType::Num);
+    if w > 65539 {
+        cells[w + 65539] = Data::Error(CellErrorType::Ref);
+    }
+    let present = |n: &str| names.iter().any(|(_, x)| *x == n);
+    let sel = |want: &[&str]| -> Cfg { Cfg::Custom(want.iter().filter(|n| present(n)).map(|n| n.to_string()).collect()) };
+    let (cfg, map) = match k {
+        0 => (sel(&["last", "z", "k", "a2"]), true),
+        1 => (sel(&["k", "q", "last"]), false),
+        2 => (sel(&["a", "last", "err"]), false),
+        3 => (Cfg::None, false),
+        4 => (Cfg::All, true),
+        _ => (Cfg::All, false),
+    };
+    Case { dims: Some((7, 3, 2, w)), cells, cfg, calls: vec![], map, ops: vec![Op::Next; 2], sched: vec!["any".into()] }
+}
+
+fn huge_family(w: usize, k: usize, rep: &mut Report) {
+    let text = format!("huge {w} {k}");
+    let case = huge_case(w, k);
+    rep.case(&text, true);
+    rep.count("huge.cases");
+    let imp = run_impl(&case, k as u64);
+    let expect = run_oracle(&case);
+    for sig in diff_sigs(&imp, &expect) {
+        let clip = |s: &str| if s.len() > 4000 { format!("{}…{}", &s[..2000], &s[s.len() - 2000..]) } else { s.to_string() };
+        rep.fail("impl_vs_spec", &format!("huge:{sig}"), &text, &clip(&imp), "(not run: impl vs oracle only)", &clip(&expect));
+    }
+}
+
 fn seq_wire(seq: &[Case]) -> String {
     format!("reuse|{}", seq.iter().map(|c| c.wire()).collect::<Vec<_>>().join("|"))
 }
@@ -2400,7 +2623,7 @@ fn main() {
          methods x consumption history (either height+1 / 0-8 calls to next, or a random mixture of 1-7 steps out of next, nth(n), by_ref().skip(k).next(), by_ref().step_by(k).take(m), by_ref().take(m), by_ref().last(), by_ref().count(), size_hint only; n up to usize::MAX; on the model side nth is the model's nth (= n+1 next steps, theorem nth_eq_iterate_next) and the adaptors are mapped to the next/nth sequences std performs: skip(k).next() = nth(k), step_by(k) = nth(0) then nth(k-1), take/last/count = repeated next); a recording Deserialize impl observes the exact visit_seq/visit_map event stream (values seen before the first \
          failure + the error) and size_hint before/after every step; compared impl vs Lean model vs independent \
          oracle. Family derive: the same ranges through Vec<Data>, HashMap<String,Data>, (String,Option<f64>,bool) and a derived \
-         struct with Option fields (with_deserialize_headers) against an expectation computed from the description. Every 64th random case is a wide range (63..300 columns, header names from a pool of 2-8 names with random padding => many duplicates after trimming, custom selections naming them, data cell = 1000*row+column). Three random cases in 64 select 17-64 columns forming a contiguous span of a 20-100 column sheet in sheet order / reversed / rotated / shuffled / with a gap, over sparse rows (values with probability 5-50 %, plus 0-2 empty runs of 16-40 cells), mostly through the map path. One case in 8 builds its builder by a call sequence: constructor (new / has_headers / with_headers / with_deserialize_headers) followed by 1-3 has_headers(b) calls (also on a clone); expected and model: the last header-mode call wins (builderCalls, theorem builder_last_call_wins). Family reuse: ONE builder value (switched between has_headers(true/false) from range to range) (with_headers / new().has_headers / with_deserialize_headers::<Rec>, also a clone taken before first use) deserializes 2-3 ranges in sequence whose header rows are re-padded (equal after trimming), identical, permuted or different; every range is compared with model and oracle evaluated per range (the builder is pure configuration: the model has no builder state) and, for the derived struct, with a fresh builder. Family convert: \
+         struct with Option fields (with_deserialize_headers) against an expectation computed from the description. Every 64th random case is a wide range (63..300 columns, header names from a pool of 2-8 names with random padding => many duplicates after trimming, custom selections naming them, data cell = 1000*row+column). Three random cases in 64 select 17-64 columns forming a contiguous span of a 20-100 column sheet in sheet order / reversed / rotated / shuffled / with a gap, over sparse rows (values with probability 5-50 %, plus 0-2 empty runs of 16-40 cells), mostly through the map path. One case in 8 builds its builder by a call sequence: constructor (new / has_headers / with_headers / with_deserialize_headers) followed by 1-3 has_headers(b) calls (also on a clone); expected and model: the last header-mode call wins (builderCalls, theorem builder_last_call_wins). Family mutate: ONE range value is deserialized, edited in place (set_value, range[(r,c)] = v, range[r][c] = v, range[r].swap(a,b), clone; 3 in 4 edits hit the header row) and deserialized again, 1-4 edits; every stage is compared with model and oracle evaluated on the cells as they are then (deserialization is a function of the range's current cells: neither has state). Family huge: 30 ranges 65535 / 65536 / 65537 / 65540 / 70000 columns wide (2 rows, named headers and values at columns 2, 3, w-2, w-1, 65536, 65538, 65539, error cells at w-2 and 65539; custom selections of the last columns, Headers::None, Headers::All; seq and map) compared impl vs oracle ONLY (the Lean model has no width limit but its list-based rows are too slow at this width). Family reuse: ONE builder value (switched between has_headers(true/false) from range to range) (with_headers / new().has_headers / with_deserialize_headers::<Rec>, also a clone taken before first use) deserializes 2-3 ranges in sequence whose header rows are re-padded (equal after trimming), identical, permuted or different; every range is compared with model and oracle evaluated per range (the builder is pure configuration: the model has no builder state) and, for the derived struct, with a fresh builder. Family convert: \
          every pool cell x every target, plus a directed stream of f32/f64 rounding midpoints (Int cells beyond 2^53 and decimal strings on / one unit next to the midpoint of adjacent f32 or f64 values; single correctly-rounded conversion expected: Rust `as f32`/`as f64` and str::parse::<f32|f64> in the oracle, intToF32/intToF64 round-to-nearest-even in the Lean model, string parsing through the model's Std parameter). Family data / visit: Data and Option<Data> as the target of every pool / random cell (model dataOfCell, optDataOfCell), and DataVisitor called directly with single visit_* calls incl. u64 above i64::MAX, f32, char, bytes, newtype (model dataVisitor). with_deserialize_headers::<R>() for the recording record type R presenting one of 4 field lists to deserialize_struct, or not a struct (1 random case in 10; model withDeserializeHeaders = Headers.custom of the fields). Family helpers: the four i64/f64 helpers also against the model (asI64OrNone … with DataConv.viewData; float text, atoi_simd and fast_float2 results passed as its Std parameter); the 12 deserialize_as_*_or_none/_or_string functions on pool and random cells (error cell => CellError at its position, else the accessor applied to the rebuilt Data). Non-trivial = a non-empty range with at least one data row; distinct by case text",
     );
     rep.notes.push("Rust std f64::to_string / str::parse::<f64|f32> are measured on the real std for the cells of each case and passed to the model as its `Std` parameter (theorems hold for every Std)".into());
@@ -2421,6 +2644,13 @@ fn main() {
             helper_model_case(&d, (pos[0], pos[1]), &mut drv, &mut rep);
         } else if let Some(v) = inp.strip_prefix("visit ") {
             visit_case(v.trim(), &mut drv, &mut rep);
+        } else if let Some(rest) = inp.strip_prefix("mutate|") {
+            let p: Vec<&str> = rest.split('|').collect();
+            let muts: Vec<Mut> = p[1..].iter().filter(|m| !m.is_empty()).map(|m| Mut::parse(m)).collect();
+            mutate_family(&Case::parse(p[0]), &muts, 0, &mut drv, &mut rep);
+        } else if inp.starts_with("huge ") {
+            let p: Vec<&str> = inp.split_whitespace().collect();
+            huge_family(p[1].parse().unwrap(), p[2].parse().unwrap(), &mut rep);
         } else if let Some(rest) = inp.strip_prefix("reuse|") {
             let seq: Vec<Case> = rest.split('|').map(Case::parse).collect();
             reuse_family(&seq, 0, &mut drv, &mut rep);
@@ -2643,6 +2873,27 @@ fn main() {
         ] {
             let seq: Vec<Case> = c.strip_prefix("reuse|").unwrap().split('|').map(Case::parse).collect();
             reuse_family(&seq, 0, &mut drv, &mut rep);
+        }
+        // one range value, edited in place between deserializations
+        for c in [
+            // seeded C09-m14: the header row edited through the mutable row slice, then deserialized again
+            "mutate|de 0,0,2,2/S:61,S:62,I:1,I:2 A map 2 any|row,0,0,S:7a",
+            "mutate|de 0,0,2,2/S:61,S:62,I:1,I:2 C/62 map 2 any|swap,0,0,1",
+            "mutate|de 0,0,2,2/S:61,S:62,I:1,I:2 A map 2 any|sv,0,1,S:79|ix,0,0,S:78|row,0,1,S:77|clone|swap,0,0,1",
+        ] {
+            let p: Vec<&str> = c.split('|').collect();
+            let muts: Vec<Mut> = p[2..].iter().map(|m| Mut::parse(m)).collect();
+            mutate_family(&Case::parse(p[1]), &muts, 0, &mut drv, &mut rep);
+        }
+        for i in 0..args.count(1_500, 150_000) {
+            let (c, muts) = gen_mutate_history(&mut rng);
+            mutate_family(&c, &muts, i, &mut drv, &mut rep);
+        }
+        // ranges wider than 65536 columns (seeded C09-m13)
+        for w in [65535usize, 65536, 65537, 65540, 70000] {
+            for k in 0..6 {
+                huge_family(w, k, &mut rep);
+            }
         }
         for i in 0..args.count(1_500, 150_000) {
             let seq = gen_reuse_sequence(&mut rng);
